@@ -103,6 +103,20 @@ def finish(pid, x, res, patch, demo):
     os.makedirs(d, exist_ok=True)
     shutil.copy(patch, os.path.join(d, "patch.diff"))
     shutil.copy(demo, os.path.join(d, "demo_test.go.txt"))
+    vc = subprocess.run("git -C /verif rev-parse --short HEAD; git -C /verif status --porcelain | grep -v '^??' | wc -l", shell=True, capture_output=True, text=True).stdout.split()
+    res["verif_commit"] = vc[0] + ("+%s uncommitted files" % vc[1] if len(vc) > 1 and vc[1] != "0" else "")
+    res["repo_head"] = subprocess.run("git -C /repo rev-parse --short HEAD", shell=True, capture_output=True, text=True).stdout.strip()
+    mp = os.path.join(d, "meta.json")
+    if os.path.exists(mp):
+        try:
+            old = json.load(open(mp))
+            if old.get("check_results"):
+                res["earlier_runs"] = old.get("earlier_runs", []) + [{"verif_commit": old.get("verif_commit", "?"), "repo_head": old.get("repo_head", "?"),
+                    "detected_by": old.get("detected_by"), "check_results": old.get("check_results")}]
+            else:
+                res["earlier_runs"] = old.get("earlier_runs", [])
+        except Exception:
+            pass
     res["confirmed"] = bool(res.get("patch_applies") and res.get("suite_passes_with_patch") and res.get("demo_fails_with_patch") and res.get("demo_passes_without_patch"))
     json.dump(res, open(os.path.join(d, "meta.json"), "w"), indent=1)
     print(pid, x, "confirmed=%s" % res["confirmed"], "detected_by=%s" % res.get("detected_by"), res.get("error", ""))
